@@ -159,6 +159,20 @@ class SymbolicExpression(Generic[T], ABC):
         """
         pass
 
+    _falsy_value_is_false_: ClassVar[bool] = False
+    """
+    Whether this expression reports a falsy value as false, i.e. its truth is only the truthiness of the value it
+    produces (attribute, index, call and flatten mappings), unlike conditions and sub-queries whose falseness is real.
+    """
+
+    def _evaluate_as_value_(self, sources: Optional[Dict[int, HashedValue]] = None) -> Iterable[Dict[int, HashedValue]]:
+        """
+        Evaluate this expression where its value is needed (an operand, a selected output, a constructor argument):
+        a falsy value (0, '', [], None, False) is a value like any other, only an expression in condition position is
+        interpreted as a boolean.
+        """
+        return self._evaluate__(sources, yield_when_false=self._falsy_value_is_false_)
+
     def _add_conclusion_(self, conclusion: Conclusion):
         self._conclusion_.add(conclusion)
 
@@ -644,7 +658,7 @@ class QueryObjectDescriptor(CanBehaveLikeAVariable[T], ABC):
                     v = conclusion._evaluate__(v)
             self._warn_on_unbound_variables_(v, selected_vars)
             if selected_vars:
-                var_val_gen = {var: var._evaluate__(copy(v))
+                var_val_gen = {var: var._evaluate_as_value_(copy(v))
                                for var in selected_vars}
                 original_v = v
                 for sol in generate_combinations(var_val_gen):
@@ -718,7 +732,7 @@ class SetOf(QueryObjectDescriptor[T]):
         for sol in sol_gen:
             sol.update(sources)
             if self.selected_variables:
-                var_val = {var._id_: next(var._evaluate__(sol, yield_when_false=self._yield_when_false_))[var._id_]
+                var_val = {var._id_: next(var._evaluate_as_value_(sol))[var._id_]
                            for var in self.selected_variables if var._id_ in sol}
                 sol.update(var_val)
                 yield sol
@@ -748,7 +762,7 @@ class Entity(QueryObjectDescriptor[T]):
             sol.update(sources)
             if self._yield_when_false_ or not self._is_false_:
                 if self.selected_variable:
-                    for var_val in self.selected_variable._evaluate__(sol):
+                    for var_val in self.selected_variable._evaluate_as_value_(sol):
                         var_val.update(sol)
                         yield var_val
                 else:
@@ -948,7 +962,7 @@ class Variable(CanBehaveLikeAVariable[T]):
             yield from self._yield_from_cache_or_instantiate_new_values_(sources)
 
     def _generate_combinations_for_child_vars_values_(self, sources: Optional[Dict[int, HashedValue]] = None):
-        kwargs_generators = {k: v._evaluate__(sources) for k, v in self._child_vars_.items()}
+        kwargs_generators = {k: v._evaluate_as_value_(sources) for k, v in self._child_vars_.items()}
         yield from generate_combinations(kwargs_generators)
 
     def _yield_from_cache_or_instantiate_new_values_(self, sources: Optional[Dict[int, HashedValue]] = None,
@@ -973,7 +987,7 @@ class Variable(CanBehaveLikeAVariable[T]):
         # Build once: unwrapped hashed kwargs for already provided child vars
         bound_kwargs = {k: v[self._child_vars_[k]._id_] for k, v in kwargs.items()}
         # For missing kwargs, evaluate their generators lazily
-        unbound_kwargs = {k: v._evaluate__(sources)
+        unbound_kwargs = {k: v._evaluate_as_value_(sources)
                           for k, v in self._child_vars_.items() if k not in bound_kwargs}
         if unbound_kwargs:
             yield from self._bind_unbound_kwargs_and_yield_results_(kwargs, unbound_kwargs, bound_kwargs)
@@ -1123,6 +1137,7 @@ class DomainMapping(CanBehaveLikeAVariable[T], ABC):
     """
     _child_: CanBehaveLikeAVariable[T]
     _invert_: bool = field(init=False, default=False)
+    _falsy_value_is_false_: ClassVar[bool] = True
 
     def __post_init__(self):
         super().__post_init__()
@@ -1141,7 +1156,7 @@ class DomainMapping(CanBehaveLikeAVariable[T], ABC):
         if self._id_ in sources:
             yield sources
             return
-        child_val = self._child_._evaluate__(sources, yield_when_false=self._yield_when_false_)
+        child_val = self._child_._evaluate_as_value_(sources)
         for child_v in child_val:
             for v in self._apply_mapping_(child_v[self._child_._id_]):
                 values = copy(child_v)
@@ -1263,7 +1278,7 @@ class Concatenate(CanBehaveLikeAVariable[T]):
             yield sources
             return
         all_values = defaultdict(list)
-        for child_v in self._child_._evaluate__(sources):
+        for child_v in self._child_._evaluate_as_value_(sources):
             child_v = copy(child_v)
             for id_, val in child_v.items():
                 if id_ == self._child_._id_:
@@ -1403,7 +1418,7 @@ class ForAll(BinaryOperator):
 
         var_val_index = 0
 
-        for var_val in self.variable._evaluate__(sources):
+        for var_val in self.variable._evaluate_as_value_(sources):
             ctx = {**sources, **var_val}
             current = []
 
@@ -1525,12 +1540,12 @@ class Comparator(BinaryOperator):
 
         first_operand, second_operand = self.get_first_second_operands(sources)
         first_operand._eval_parent_ = self
-        first_values = first_operand._evaluate__(sources)
+        first_values = first_operand._evaluate_as_value_(sources)
         for first_value in first_values:
             first_value.update(sources)
             operand_value_map = {first_operand._id_: first_value[first_operand._id_]}
             second_operand._eval_parent_ = self
-            second_values = second_operand._evaluate__(first_value)
+            second_values = second_operand._evaluate_as_value_(first_value)
             for second_value in second_values:
                 operand_value_map[second_operand._id_] = second_value[second_operand._id_]
                 res = self.apply_operation(operand_value_map)
